@@ -26,6 +26,70 @@ fn usage() -> ! {
 	std::process::exit(2);
 }
 
+fn supervise(id: &str, tier: &str, seed: u64, args: &[String]) -> i32 {
+	use std::io::Read;
+	use std::os::unix::process::ExitStatusExt;
+	let start = Instant::now();
+	let mut child = std::process::Command::new(std::env::current_exe().expect("current_exe"))
+		.args(&args[1..])
+		.env("XTMC_CHILD", "1")
+		.stderr(std::process::Stdio::piped())
+		.spawn()
+		.expect("MACHINERY: cannot spawn the check process");
+	let mut err = child.stderr.take().unwrap();
+	let t = std::thread::spawn(move || {
+		let mut keep: Vec<u8> = vec![];
+		let mut buf = [0u8; 8192];
+		loop {
+			match err.read(&mut buf) {
+				Ok(0) | Err(_) => break,
+				Ok(n) => {
+					// pass through and remember the tail
+					let _ = std::io::Write::write_all(&mut std::io::stderr(), &buf[..n]);
+					keep.extend_from_slice(&buf[..n]);
+					if keep.len() > 16384 {
+						keep.drain(..keep.len() - 8192);
+					}
+				}
+			}
+		}
+		keep
+	});
+	let st = child.wait().expect("MACHINERY: wait");
+	let tail = String::from_utf8_lossy(&t.join().unwrap_or_default()).to_string();
+	if let Some(code) = st.code() {
+		return code;
+	}
+	let sig = st.signal().unwrap_or(0);
+	if sig == libc::SIGKILL || sig == libc::SIGTERM || sig == libc::SIGINT {
+		eprintln!("MACHINERY ERROR: the check process was killed from outside (signal {sig})");
+		return 2;
+	}
+	// SIGABRT / SIGSEGV / SIGBUS / SIGILL / SIGFPE: raised by the code under test
+	let lines: Vec<&str> = tail.lines().rev().take(12).collect::<Vec<_>>().into_iter().rev().collect();
+	let detail = format!("the check process was killed by signal {sig} while exercising xt in-process (abort of a non-unwinding panic, stack overflow or undefined behaviour); last stderr lines: {}", lines.join(" | "));
+	let ctx = report::Ctx { id: id.to_string(), tier: tier.to_string(), seed, start };
+	let mut tally = report::Tally::default();
+	tally.evaluations = 1;
+	tally.distinct.insert(1);
+	tally.distinct.insert(2);
+	tally.states = 1;
+	tally.transitions = 1;
+	tally.samples.push(serde_json::json!("(the run was cut short by the crash; no coverage is claimed)"));
+	tally.bad(format!("check-process-killed-by-signal-{sig}"), serde_json::json!({"kind": "crash", "signal": sig, "stderr_tail": lines}), detail);
+	let out = report::CheckOutput {
+		level: "exploration",
+		tally,
+		rule: "the run was cut short: the check process died on a signal raised inside the code under test".into(),
+		exhaustive: false,
+		bounds: serde_json::json!({}),
+		assumptions: vec![],
+		required: vec![],
+		extra: Default::default(),
+	};
+	report::finish(&ctx, out)
+}
+
 fn main() {
 	run::install_panic_hook();
 	let args: Vec<String> = std::env::args().collect();
@@ -71,6 +135,12 @@ fn main() {
 	let tier = std::env::var("VERIF_TIER").ok().filter(|t| t == "quick" || t == "thorough").unwrap_or(args[2].clone());
 	let tier = if args[2] == "quick" || args[2] == "thorough" { args[2].clone() } else { tier };
 	let seed = std::env::var("VERIF_SEED").ok().and_then(|s| s.parse::<i64>().ok()).unwrap_or(0).unsigned_abs();
+	// Supervisor: the check itself runs in a child process. If that child is killed by a signal
+	// (abort from a non-unwinding panic, SIGSEGV from a stack overflow or undefined behaviour) while it
+	// exercises xt in-process, that is a property-relevant event, not a machinery failure.
+	if std::env::var_os("XTMC_CHILD").is_none() && std::env::var_os("XTMC_NO_SUPERVISOR").is_none() {
+		std::process::exit(supervise(&id, &tier, seed, &args));
+	}
 	let ctx = report::Ctx { id: id.clone(), tier, seed, start: Instant::now() };
 	let out = match checks::run(&ctx) {
 		Some(o) => o,
